@@ -412,6 +412,48 @@ get_common_reg_type (OrcX86Insn *xinsn)
   return ORC_X86_NO_PREFIX;
 }
 
+/* 256-bit VEX forms whose register/memory source is only 128 bits wide:
+ * widening conversions and the count of a shift by register */
+static int
+vex256_source_is_xmm (const OrcX86Insn *xinsn)
+{
+  switch (xinsn->opcode_index) {
+    case ORC_X86_psraw:
+    case ORC_X86_psrlw:
+    case ORC_X86_psllw:
+    case ORC_X86_psrad:
+    case ORC_X86_psrld:
+    case ORC_X86_pslld:
+    case ORC_X86_psrlq:
+    case ORC_X86_psllq:
+    case ORC_X86_psrlq_reg:
+    case ORC_X86_pmovsxbw:
+    case ORC_X86_pmovsxbd:
+    case ORC_X86_pmovsxbq:
+    case ORC_X86_pmovsxwd:
+    case ORC_X86_pmovsxwq:
+    case ORC_X86_pmovsxdq:
+    case ORC_X86_cvtdq2pd:
+    case ORC_X86_cvtps2pd:
+      return TRUE;
+    default:
+      return FALSE;
+  }
+}
+
+/* 256-bit VEX forms that produce a 128-bit result: narrowing conversions */
+static int
+vex256_dest_is_xmm (const OrcX86Insn *xinsn)
+{
+  switch (xinsn->opcode_index) {
+    case ORC_X86_cvttpd2dq:
+    case ORC_X86_cvtpd2ps:
+      return TRUE;
+    default:
+      return FALSE;
+  }
+}
+
 /* A general purpose operand is 64 bits wide exactly when the encoder sets
  * REX.W */
 static const char *
@@ -491,7 +533,10 @@ orc_x86_insn_output_asm (OrcCompiler *p, OrcX86Insn *xinsn)
     case ORC_X86_INSN_TYPE_IMM8_MMXM_MMX:
       if (xinsn->type == ORC_X86_RM_REG) {
         sprintf(src_op, "%%%s, ",
-            orc_x86_get_simd_regname (operand1, is_sse));
+            orc_x86_get_simd_regname (operand1,
+                (is_sse == ORC_X86_AVX_VEX256_PREFIX &&
+                 vex256_source_is_xmm (xinsn)) ?
+                ORC_X86_AVX_VEX128_PREFIX : is_sse));
       } else if (xinsn->type == ORC_X86_RM_MEMOFFSET) {
         sprintf(src_op, "%d(%%%s), ", xinsn->offset,
             orc_x86_get_regname_ptr (p, operand1));
@@ -689,7 +734,10 @@ orc_x86_insn_output_asm (OrcCompiler *p, OrcX86Insn *xinsn)
     case ORC_X86_INSN_TYPE_REGM_MMX:
     case ORC_X86_INSN_TYPE_IMM8_MMX_SHIFT:
       sprintf(dst_op, "%%%s",
-            orc_x86_get_simd_regname (xinsn->dest, is_sse));
+            orc_x86_get_simd_regname (xinsn->dest,
+                (is_sse == ORC_X86_AVX_VEX256_PREFIX &&
+                 vex256_dest_is_xmm (xinsn)) ?
+                ORC_X86_AVX_VEX128_PREFIX : is_sse));
       break;
     case ORC_X86_INSN_TYPE_MMXM_MMX_REV:
     case ORC_X86_INSN_TYPE_SSEM_SSE_REV:
